@@ -292,6 +292,10 @@ def check_config(ctx, F, tag, text, lists):
     fr = F.body("<rl_vector::RLVector as std::convert::From<rl_vector::RLBuilder>>::from")
     wc = [t for _, t in fr.calls() if callee_name(t) == "int_vector::IntVector::with_capacity"]
     ok = len(wc) == 1
+    if not wc:
+        # the samples are not built by with_capacity(.., width) + push: some other construction (collect + pack, ..) whose width
+        # this rule cannot read off -- undecided, not refuted
+        ok = None
     if ok:
         w = fr.term_of_operand(wc[0]["args"][1])
         ok = m(Call("bits::bit_len", ANY), w)
